@@ -122,6 +122,23 @@ func TestGovcBoundedC06Groupings(t *testing.T) {
 				}
 			}
 		}
+		// (4, below) a submodule uses a grouping of the module it belongs to and of a sibling submodule
+		evals++
+		ms = NewModules()
+		for n, src := range map[string]string{
+			"m.yang":  `module m { yang-version 1.1; namespace "urn:m"; prefix m; include s; include t; grouping g { leaf x { type string; } } }`,
+			"s.yang":  `submodule s { yang-version 1.1; belongs-to m { prefix m; } container c { uses g; uses m:tg; } }`,
+			"t.yang":  `submodule t { yang-version 1.1; belongs-to m { prefix m; } grouping tg { leaf y { type string; } } }`,
+		} {
+			if err := ms.Parse(src, n); err != nil {
+				fmt.Printf("GOVC-FAIL name=c06-grouping-expansion fixed case does not parse: %v\n", err)
+			}
+		}
+		if errs := ms.Process(); len(errs) > 0 {
+			fmt.Printf("GOVC-FAIL name=c06-grouping-expansion a submodule uses a grouping of its module and of a sibling submodule: %v\n", errs)
+		} else if c := ToEntry(ms.Modules["m"]).Dir["c"]; c == nil || c.Dir["x"] == nil || c.Dir["y"] == nil {
+			fmt.Printf("GOVC-FAIL name=c06-grouping-expansion the groupings of the module are not expanded in the submodule's container\n")
+		}
 		// (3) a definition is not a use: a grouping defined inside grouping k -- at any depth -- may
 		// use k; k does not use itself, and a real cycle through the inner grouping is still an error
 		evals++
